@@ -180,7 +180,7 @@ def seeds_for(prop):
             continue
         with open(mp) as f:
             meta = json.load(f)
-        if meta.get("property") != prop:
+        if prop not in meta.get("checked_by", [meta.get("property")]):
             continue
         with open(pp) as f:
             out.append((d, f.read(), meta.get("expect", "violation")))
